@@ -566,6 +566,7 @@ STICKY_POST = [
 
 @contract(M + 'mpf_div')
 class _:
+    search = 'div_inputs'
     shapes = dict(s='mpf', t='mpf', prec='int')
     result = 'mpf'
     props = dict(wf=['C01'], bits=['C10'], value=['C02'])
@@ -613,6 +614,7 @@ class _:
 
 @contract(M + 'mpf_rdiv_int')
 class _:
+    search = 'rdiv_inputs'
     shapes = dict(n='int', t='mpf', prec='int')
     result = 'mpf'
     props = dict(wf=['C01'], bits=['C10'], value=['C02'])
